@@ -278,6 +278,20 @@ inline void Exec::check_cal_index(int ki, int ci, const std::string &name, NewOb
         int F = icall(k4, [&] { return vnacal_get_frequencies(K.p, ci); });
         snprintf(b, sizeof b, "index %d returned for a %s %dx%d calibration with %d frequencies, the getters say type %d %dx%d with %d", ci, TNAME[N->ty], N->r, N->c, N->F, t, r, cc, F);
         obs->claim(t == (int)cs::LIBTYPE[N->ty] && r == N->r && cc == N->c && F == N->F, "C11.index_wrong_object", b);
+        // "vnacal_new_set_frequency_vector() copies a vector of calibration frequency points into the vnacal_new_t":
+        // the calibration carries the vector that was in force (last ACCEPTED) when it was solved -- a refused replacement changes nothing
+        if (F == N->F && (int)N->solved_freq.size() == F && F > 0) {
+            Call k5 = mk("vnacal_get_frequency_vector", XP_MUST, C_USAGE, "returned-index", O_CAL, ki); k5.log = nullptr;
+            const double *fv = pcall<const double>(k5, [&] { return vnacal_get_frequency_vector(K.p, ci); });
+            Call k6 = mk("vnacal_get_fmin", XP_MUST, C_USAGE, "returned-index", O_CAL, ki); k6.log = nullptr;
+            double lo = dcall(k6, [&] { return vnacal_get_fmin(K.p, ci); });
+            Call k7 = mk("vnacal_get_fmax", XP_MUST, C_USAGE, "returned-index", O_CAL, ki); k7.log = nullptr;
+            double hi = dcall(k7, [&] { return vnacal_get_fmax(K.p, ci); });
+            bool same = fv != nullptr;
+            for (int f = 0; same && f < F; f++) if (!same_bits(fv[f], N->solved_freq[f])) same = false;
+            snprintf(b, sizeof b, "calibration %d: frequencies %g..%g (fmin %g, fmax %g) are not the vector last accepted by vnacal_new_set_frequency_vector before the solve (%g..%g)", ci, fv ? fv[0] : 0.0, fv ? fv[F - 1] : 0.0, lo, hi, N->solved_freq.front(), N->solved_freq.back());
+            obs->claim(same && same_bits(lo, N->solved_freq.front()) && same_bits(hi, N->solved_freq.back()), "C11.calibration_frequencies_not_the_accepted_ones", b);
+        }
     }
 }
 
